@@ -194,8 +194,9 @@ class Stack:
                 n = k.n
                 A = [[0.0] * (n + 1) for _ in range(n)]
                 for i in range(n):
-                    A[i][i] = [1.0, 0.5, 2.0][(idx + i) % 3]
-                    A[i][n] = 0.25 * ((idx + i) % 4)
+                    # never the identity map (also for N = 1), and no two adjacent affine layers commute
+                    A[i][i] = [2.0, 0.5, 1.0][(idx + i) % 3]
+                    A[i][n] = 0.25 * (1 + (idx + i) % 3)
                 if n > 1:
                     A[0][n - 1] = 0.5 if idx % 2 else 0.25
                 L.cfg = {"A": A}
@@ -454,21 +455,38 @@ def enumerate_stacks(n, m, maxdepth, itype="std::size_t", rtype="float", stype="
     return res
 
 
+def coordinate_sensitive(s):
+    """the innermost backend's value depends on the coordinate it is queried at (a constant backend hides every
+    mistake in the coordinate maps above it)"""
+    return s.layers[-1].kind != "constant"
+
+
 def adjacency_cover(stacks):
-    """Greedy subset in which every (layer kind, kind directly beneath) pair and every (kind, beneath, beneath-beneath) triple
-    that occurs in `stacks` occurs at least once."""
-    need = set()
-    for s in stacks:
-        ks = [L.kind for L in s.layers]
-        for i in range(len(ks) - 1):
-            need.add((ks[i], ks[i + 1]))
-    chosen = []
-    for s in sorted(stacks, key=lambda s: (s.depth(), s.cpp_type())):
-        ks = [L.kind for L in s.layers]
-        mine = set((ks[i], ks[i + 1]) for i in range(len(ks) - 1))
-        if mine & need or (len(ks) == 1 and not any(c.cpp_type() == s.cpp_type() for c in chosen)):
-            chosen.append(s)
-            need -= mine
+    """Greedy subset in which every (layer kind, kind directly beneath) pair that occurs in `stacks` occurs at least once,
+    and - wherever such a stack exists - at least once in a stack whose innermost backend is coordinate-sensitive."""
+    chosen, chosen_types = [], set()
+
+    def pairs(cands):
+        out = set()
+        for s in cands:
+            ks = [L.kind for L in s.layers]
+            for i in range(len(ks) - 1):
+                out.add((ks[i], ks[i + 1]))
+        return out
+
+    def take(cands, need):
+        for s in sorted(cands, key=lambda s: (s.depth(), s.cpp_type())):
+            ks = [L.kind for L in s.layers]
+            mine = set((ks[i], ks[i + 1]) for i in range(len(ks) - 1))
+            if (mine & need or len(ks) == 1) and s.cpp_type() not in chosen_types:
+                chosen.append(s)
+                chosen_types.add(s.cpp_type())
+                need -= mine
+        return need
+
+    sens = [s for s in stacks if coordinate_sensitive(s)]
+    take(sens, pairs(sens))
+    take(stacks, pairs(stacks) - pairs(chosen))
     return chosen
 
 
